@@ -3,6 +3,7 @@ tables per addressing shape and register type, defaults, multipliers, load laten
 description that gives the memory operand any role, and small kernels of instructions written as TEXT
 (parsed by the real parsers, roles assigned by the real assign_src_dst)."""
 import copy
+import re
 
 import models
 import c08_cost as C
@@ -20,6 +21,11 @@ A64_REGS = {"x": ["x0", "x7", "x29"], "w": ["w1", "w12"], "d": ["d0", "d9"], "q"
             "v": ["v0.2d", "v3.4s"], "z": ["z0.d", "z9.s"]}
 A64_MEMS = ["[x1]", "[x1, #8]", "[x1, x2]", "[x1, x2, lsl #3]", "[x1, #16]!", "[x1], #16", "[sp, #32]", "[x3, #-8]!",
             "[x4], #64", "[x5, w6, sxtw #2]"]
+# the same addressing shape with a symbolic instead of a numeric (or no) displacement: rows with `offset: imd` must not be
+# used for the twin and vice versa (whatever was analysed before on the same machine model)
+X86_TWIN = {"8(%rax)": "tab(%rax)", "(%rax)": "glob(%rax)", "16(%rax,%rcx,4)": "sym(%rax,%rcx,4)", "0(%rsi)": "var(%rsi)",
+            "(%rax,%rbx,8)": "arr(%rax,%rbx,8)", "-8(%rbp)": "loc(%rbp)", "64(%rsp,%rdx,8)": "stk(%rsp,%rdx,8)"}
+A64_TWIN = {"[x1, #8]": "[x1, :lo12:tab]", "[sp, #32]": "[sp, :lo12:stk]", "[x1]": "[x1, #:lo12:glob]"}
 A64_MNEM = ["ldr", "str", "fadd", "fmla.d", "add", "foo", "ldp", "bar.ne", "mov", "st1", "addv.s"]
 
 
@@ -64,10 +70,10 @@ def classes(isa):
 def gen_mem_pattern(rng, isa, typed_field=None, typ=None):
     from osaca.parser.memory import MemoryOperand
     if isa == "x86":
-        kw = dict(base=rng.choice(["gpr", "gpr", "*"]), offset=rng.choice([None, "imd", "*", "*"]),
+        kw = dict(base=rng.choice(["gpr", "gpr", "*"]), offset=rng.choice([None, "imd", "imd", "id", "*", "*"]),
                   index=rng.choice([None, "gpr", "*", "*"]), scale=rng.choice([1, 8, "*", "*"]))
     else:
-        kw = dict(base=rng.choice(["x", "x", "*"]), offset=rng.choice([None, "imd", "*", "*"]),
+        kw = dict(base=rng.choice(["x", "x", "*"]), offset=rng.choice([None, "imd", "imd", "id", "*", "*"]),
                   index=rng.choice([None, "x", "*", "*"]), scale=rng.choice([1, "*", "*"]),
                   pre_indexed=rng.choice([False, True, "*", "*"]), post_indexed=rng.choice([False, True, "*", "*"]))
     if typed_field:
@@ -210,6 +216,15 @@ def gen_world(rng):
     for _ in range(rng.choice([1, 2, 2, 3, 4])):
         text, mn, kinds = gen_instr(rng, isa)
         lines.append(text)
+        tw = [(a, b) for a, b in (X86_TWIN if isa == "x86" else A64_TWIN).items()
+              if re.search(r"(?:^|[ ,])" + re.escape(a) + r"(?:,|$)", text)]
+        if tw and rng.random() < 0.45:
+            a, b = rng.choice(tw)
+            twin = text.replace(a, b, 1)
+            if rng.random() < 0.5:
+                lines.append(twin)
+            else:
+                lines.insert(len(lines) - 1, twin)
         st = strip_suffix(isa, mn)
         r = rng.random()
         want = []
